@@ -252,11 +252,11 @@ theorem pickNames_error (names : List String) (is : List Nat) (h : ∃ i ∈ is,
 
 /-! ### the closure identity of the prime operators -/
 
-theorem Spec.mem_ext {t : Table} {B base : List Nat} {g : Nat} :
+theorem Spec.c08_mem_ext {t : Table} {B base : List Nat} {g : Nat} :
     g ∈ Spec.ext t B base ↔ g ∈ base ∧ ∀ a ∈ B, t.get g a = true := by
   simp [Spec.ext]
 
-theorem Spec.mem_int {t : Table} {A base : List Nat} {a : Nat} :
+theorem Spec.c08_mem_int {t : Table} {A base : List Nat} {a : Nat} :
     a ∈ Spec.int t A base ↔ a ∈ base ∧ ∀ g ∈ A, t.get g a = true := by
   simp [Spec.int]
 
@@ -264,10 +264,10 @@ theorem Spec.mem_int {t : Table} {A base : List Nat} {a : Nat} :
 theorem Spec.subset_ext_int (t : Table) (A : List Nat) (hA : ∀ g ∈ A, g < t.height) (mbase : List Nat) :
     A ⊆ Spec.ext t (Spec.int t A mbase) (List.range t.height) := by
   intro g hg
-  rw [Spec.mem_ext]
+  rw [Spec.c08_mem_ext]
   refine ⟨List.mem_range.mpr (hA g hg), ?_⟩
   intro a ha
-  exact (Spec.mem_int.mp ha).2 g hg
+  exact (Spec.c08_mem_int.mp ha).2 g hg
 
 /-- `int (ext (int A)) = int A`: the pair `(ext (int A), int A)` is a formal concept -/
 theorem Spec.int_ext_int (t : Table) (A : List Nat) (hA : ∀ g ∈ A, g < t.height) (mbase : List Nat) :
@@ -281,9 +281,9 @@ theorem Spec.int_ext_int (t : Table) (A : List Nat) (hA : ∀ g ∈ A, g < t.hei
   · intro H g hg
     exact H g (Spec.subset_ext_int t A hA mbase hg)
   · intro H g hg
-    have := (Spec.mem_ext.mp hg).2 a
+    have := (Spec.c08_mem_ext.mp hg).2 a
     apply this
-    exact (Spec.mem_int (t := t) (A := A)).mpr ⟨ha, H⟩
+    exact (Spec.c08_mem_int (t := t) (A := A)).mpr ⟨ha, H⟩
 
 /-! ### all-`IntervalPS` many-valued contexts -/
 namespace Interval
